@@ -95,7 +95,8 @@ class TypeRender:
                 ps.append(pick(['expression = %s', 'expr = %s', 'expression(%s)', 'expr(%s)'], self.idx, 'dx') % self.type_default_expr())
             return 'Default(%s)' % ', '.join(ps) if ps else 'Default'
         if t == 'Into':
-            raise NotImplementedError
+            tn = {'A': 'TA', 'B': 'TB'}
+            return ', '.join('Into(%s)' % pick([tn[x], 'probes::%s' % tn[x]], self.idx, 'itn', x) for x in o['targets'])
         return t
 
     def field_attr(self, v, i, f):
@@ -136,6 +137,15 @@ class TypeRender:
                 metas.append('Hash(%s)' % method_spelling('probes::m_hash', key))
         if 'Clone' in self.traits and f['clone'] == 'method':
             metas.append('Clone(%s)' % method_spelling('probes::m_clone', key))
+        if 'Into' in self.traits:
+            for m in f.get('into', []):
+                tn = {'A': 'TA', 'B': 'TB'}[m['t']]
+                # the target must be spelled as on the type (targets are matched by their token string)
+                tn = pick([tn, 'probes::%s' % tn], self.idx, 'itn', m['t'])
+                if m['m']:
+                    metas.append('Into(%s, %s)' % (tn, method_spelling('probes::m_into', key + (m['t'],))))
+                else:
+                    metas.append('Into(%s)' % tn)
         if 'Deref' in self.traits and f.get('deref'):
             metas.append('Deref')
         if 'DerefMut' in self.traits and f.get('dmut'):
@@ -217,12 +227,18 @@ class TypeRender:
             return 'const _: fn() = || { fn is_copy<T: ::core::marker::Copy>() {} is_copy::<%s>(); };' % self.name
         return ''
 
-    FIELD_TYPES = {'P': 'P', 'ref': "&'static P", 'bool': 'bool', 'u64': 'u64', 'unit': '()', 'char': 'char', 'str': "&'static str",
+    FIELD_TYPES = {'A': 'TA', 'B': 'TB', 'P': 'P', 'ref': "&'static P", 'bool': 'bool', 'u64': 'u64', 'unit': '()', 'char': 'char', 'str': "&'static str",
                    'nz': '::core::num::NonZeroU8', 'opt': 'Option<u8>', 'nested': 'probes::Inner'}
     with_finger = True
 
     def field_type(self, v, i, f):
-        return self.FIELD_TYPES[f.get('ty', 'P')]
+        ty = f.get('ty', 'P')
+        if ty in ('A', 'B'):
+            # spelled exactly like the Into target on the type: educe matches a field's declared type
+            # against the target by token string
+            tn = {'A': 'TA', 'B': 'TB'}[ty]
+            return pick([tn, 'probes::%s' % tn], self.idx, 'itn', ty)
+        return self.FIELD_TYPES[ty]
 
     # ------------------------------------------------------------ item
     def fields_src(self, v, var, with_vis=False):
@@ -297,6 +313,8 @@ class TypeRender:
             return 'P::new(%s, %d, %s)' % (side, i, val)
         if ty == 'unit':
             return '()'
+        if ty in ('A', 'B'):
+            return 'T%s::new(%s, %d, %s)' % (ty, side, i, val)
         if ty == 'ref':
             return '&*Box::leak(Box::new(P::new(%s, %d, %s)))' % (side, i, val)
         return 'probes::mk_%s(%s)' % (ty, val)
